@@ -3,7 +3,8 @@ import IsalVerif.Lemmas.MhFinCProofs
 /-!
   Per-run obligations over `Gen/MhFin.lean` (regenerated from the current tree by `tools/gen_mhfin.py`): every instance
   of the multi-hash finalize functions (`_mh_sha1_finalize_*`, `_mh_sha256_finalize_*`,
-  `_mh_sha1_murmur3_x64_128_finalize_*`; 15 functions), as the source reads now, is the program whose meaning
+  `_mh_sha1_murmur3_x64_128_finalize_*`; 15 functions) and the stitched C block function
+  `_mh_sha1_murmur3_x64_128_block_base`, as the source reads now, is the program whose meaning
   `Lemmas/MhFinCProofs.lean` establishes (`canon_fin`): for every `total_length` it hands the tail function of its own
   family the partial buffer and the 32-bit total length, copies exactly the digest words to the non-NULL output and
   returns 0; the stitched variant first feeds murmur3 exactly the buffered bytes (`mur_reads_buffered`), before the
@@ -17,18 +18,37 @@ open IsalVerif IsalVerif.MhFinC
 theorem all_canon : Gen.MhFin.all.all (fun x =>
     match paramsOf x.alg with
     | some (w, m) => decide (x.prog = canon w m)
-    | none => false) = true := by decide
+    | none => decide (x.alg = "block_base") && decide (x.prog = canonBlockBase)) = true := by decide
 
-theorem all_count : 15 ≤ Gen.MhFin.all.length := by decide
+theorem all_count : 16 ≤ Gen.MhFin.all.length := by decide
 
-theorem mhfin_current (x : Src) (hx : x ∈ Gen.MhFin.all) (s : St) (ht : s.total < 2^64) (he : s.evs = []) :
+/-- the stitched C block function of the current tree (the `base` family's `f` of `mhupdate_absorbs`): mh_sha1 and
+    murmur3 consume the same `1024 n` bytes -/
+theorem blockbase_current (x : Src) (hx : x ∈ Gen.MhFin.all) (_hn : x.fn = "_mh_sha1_murmur3_x64_128_block_base")
+    (ha : x.alg = "block_base") (s : St) (n : Nat) (hlt : n < 2^22) (h3 : s.locs 3 = n) (he : s.evs = []) :
+    (run x.prog s).res = some ([.shaBlockIn n, .murBlockIn (64 * n)], 0) := by
+  have h := List.all_eq_true.mp all_canon x hx
+  have hp : paramsOf x.alg = none := by rw [ha]; decide
+  rw [hp] at h
+  simp only [Bool.and_eq_true, decide_eq_true_eq] at h
+  rw [h.2]
+  exact (canon_blockbase s n hlt h3 he).1
+
+theorem blockbase_present : Gen.MhFin.all.any (fun x => decide (x.fn = "_mh_sha1_murmur3_x64_128_block_base") &&
+    decide (x.alg = "block_base")) = true := by decide
+
+theorem mhfin_current (x : Src) (hx : x ∈ Gen.MhFin.all) (hne : x.alg ≠ "block_base") (s : St) (ht : s.total < 2^64)
+    (he : s.evs = []) :
     ∃ w m, paramsOf x.alg = some (w, m) ∧ (run x.prog s).res = some (finSpec s.total w m, 0) := by
   have h := List.all_eq_true.mp all_canon x hx
   match hp : paramsOf x.alg with
   | some (w, m) =>
     rw [hp] at h
     exact ⟨w, m, rfl, by rw [of_decide_eq_true h]; exact canon_fin s ht he w m⟩
-  | none => rw [hp] at h; exact absurd h (by simp)
+  | none =>
+    rw [hp] at h
+    simp only [Bool.and_eq_true, decide_eq_true_eq] at h
+    exact absurd h.1 hne
 
 /-- the stitched instances are among them, and the bytes they hand murmur3 are the buffered ones -/
 theorem stitched_present :
